@@ -3,3 +3,5 @@ import BufrProps.C10
 #print axioms Bufr.C10.C10_rejects
 #print axioms Bufr.C10.C10_rejects_unknown
 #print axioms Bufr.C10.C10_factor_count
+#print axioms Bufr.C10.C10_terminates
+#print axioms Bufr.C10.C10_total_correct
